@@ -611,3 +611,94 @@ Proof.
       intros [p b] Hin. cbn. rewrite (Hm _ _ Hin). apply Bool.eqb_reflx.
   - split; [intros [Hp _]; split; auto; discriminate | intros [Hp _]; auto].
 Qed.
+
+(** * The literal directory prefix of a glob *)
+Lemma si_go_concat acc s : concat (si_go acc s) = rev acc ++ s.
+Proof.
+  revert acc; induction s as [|b t IH]; intros acc; cbn [si_go].
+  - destruct acc; cbn; rewrite ?app_nil_r; reflexivity.
+  - destruct (C32.is_slash b).
+    + cbn [concat]. rewrite IH. cbn [rev app]. rewrite <- app_assoc. reflexivity.
+    + rewrite IH. cbn [rev]. rewrite <- app_assoc. reflexivity.
+Qed.
+
+Lemma take_while_split {A} (f : A -> bool) l :
+  exists r, l = C30.take_while f l ++ r /\ Forall (fun x => f x = true) (C30.take_while f l).
+Proof.
+  induction l as [|x l (r & E & F)]; cbn.
+  - exists []. split; [reflexivity|constructor].
+  - destruct (f x) eqn:H.
+    + exists r. split; [cbn; congruence|constructor; auto].
+    + exists (x :: l). split; [reflexivity|constructor].
+Qed.
+
+Lemma fold_len (pieces : list bytes) n :
+  fold_left (fun n piece => (n + length piece)%nat) pieces n = (n + length (concat pieces))%nat.
+Proof.
+  revert n; induction pieces as [|x l IH]; intros n; cbn [fold_left concat].
+  - cbn. lia.
+  - rewrite IH, app_length. lia.
+Qed.
+
+Lemma firstn_skipn_exact {A} (a b : list A) :
+  firstn (length a) (a ++ b) = a /\ skipn (length a) (a ++ b) = b.
+Proof. induction a as [|x a [IH1 IH2]]; cbn; [auto|]. split; congruence. Qed.
+
+Lemma existsb_concat {A} (f : A -> bool) (ls : list (list A)) :
+  existsb f (concat ls) = existsb (existsb f) ls.
+Proof. induction ls as [|l ls IH]; cbn; [reflexivity|]. rewrite existsb_app, IH. reflexivity. Qed.
+
+(** [split_glob_path] cuts the input in two; the first part consists of whole
+    '/'-terminated pieces none of which contains a stop (glob) character. *)
+Lemma split_glob_path_by_spec stop input :
+  fst (split_glob_path_by stop input) ++ snd (split_glob_path_by stop input) = input /\
+  existsb stop (fst (split_glob_path_by stop input)) = false.
+Proof.
+  unfold split_glob_path_by. cbn [fst snd].
+  match goal with |- context [C30.take_while ?f ?l] =>
+    destruct (take_while_split f l) as (r & E & F);
+    remember (C30.take_while f l) as taken eqn:T; clear T end.
+  assert (I : input = concat taken ++ concat r).
+  { assert (H : concat (split_inclusive input) = input)
+      by (unfold split_inclusive; rewrite si_go_concat; reflexivity).
+    rewrite E, concat_app in H. symmetry. exact H. }
+  rewrite (fold_len taken 0). cbn [Nat.add].
+  split; [apply firstn_skipn|].
+  rewrite I. destruct (firstn_skipn_exact (concat taken) (concat r)) as [-> _].
+  rewrite existsb_concat. clear - F. induction F as [|x l Hx _ IH]; cbn; [reflexivity|].
+  apply negb_true_iff in Hx. rewrite Hx, IH. reflexivity.
+Qed.
+
+(** * What cwd-relative literal patterns denote, through the C32 characterisation *)
+Lemma cwd_path_spec cwd base input p :
+  C32.has_root base = true -> C32.has_root (C32.push cwd input) = true ->
+  cwd_path cwd base input = C32.Ok p ->
+  exists l, comps p = l /\
+            C32.normalize_comps (C32.components (C32.push cwd input))
+            = C32.components base ++ map C32.Normal l.
+Proof.
+  intros Hb Ha H. unfold cwd_path in H.
+  apply Proofs.C32.parse_fs_path_spec in H as (l & E & U & ->); auto.
+  exists l. split; auto. unfold comps. apply Proofs.C32.repo_components_join.
+  apply Forall_forall. intros n Hn. apply Proofs.C32.good_name_wf.
+  pose proof (Proofs.C32.normalize_comps_ok _ (Proofs.C32.components_ok (C32.push cwd input))) as P.
+  rewrite Forall_forall in P. apply (P (C32.Normal n)). rewrite E.
+  apply in_or_app. right. apply in_map. exact Hn.
+Qed.
+
+Lemma cwd_literal_denotes cwd base bad (file : bool) input pt :
+  C32.has_root base = true -> C32.has_root (C32.push cwd input) = true ->
+  resolve_pattern cwd base bad (if file then KCwdFile else KCwd) input = C32.Ok pt ->
+  exists l,
+    C32.normalize_comps (C32.components (C32.push cwd input))
+    = C32.components base ++ map C32.Normal l /\
+    forall gm p,
+      den_pattern gm pt p =
+      if file then path_eqb l p
+      else match C30.strip_prefix neqb l p with Some _ => true | None => false end.
+Proof.
+  intros Hb Ha H. destruct file; cbn [resolve_pattern] in H; unfold rbind in H;
+    destruct (cwd_path cwd base input) as [p0|] eqn:E; try discriminate;
+    inversion H; subst; destruct (cwd_path_spec _ _ _ _ Hb Ha E) as (l & C & N);
+    exists l; (split; [exact N|]); intros gm p; cbn [den_pattern]; rewrite C; reflexivity.
+Qed.
